@@ -29,14 +29,17 @@ KeyDistinct(s) == \A i, j \in DOMAIN s : i # j => ~PyEq(s[i].key, s[j].key)
 
 (* ------------------------------------------------------------------ objects *)
 eA == Atom("E", 301)          \* a member of an enum.Enum subclass
+eB == Atom("E2", 302)         \* a member of an Enum whose metaclass derives from EnumMeta
+mc1 == Atom("MC1", 0)         \* instance of a class whose metaclass defines (and advertises) __len__ / __iter__ / __contains__
+mc2 == Atom("MC2", 0)         \* instance of a class whose metaclass inherits them from a parent metaclass
 fn == Atom("func", 401)       \* a plain function
 oo == Atom("object", 501)     \* object()
 ProtoAtoms == {Atom("USized", 0), Atom("UCont", 0), Atom("URev", 0), Atom("UItor", 0)}
-TypeObjs == {TypeObj("int"), TypeObj("A"), TypeObj("E"), TypeObj("list"), TypeObj("USet")}
-AllAtoms == {i0, i1, bF, bT, f1, cj, sa, none, oa, ob, eA, fn, oo} \cup ProtoAtoms
+TypeObjs == {TypeObj("int"), TypeObj("A"), TypeObj("E"), TypeObj("E2"), TypeObj("MC2"), TypeObj("list"), TypeObj("USet")}
+AllAtoms == {i0, i1, bF, bT, f1, cj, sa, none, oa, ob, eA, eB, mc1, mc2, fn, oo} \cup ProtoAtoms
 
 Tiny == Tier \in {"nv", "fsm_full"}
-ItemAtoms == CASE Tiny           -> {i1, sa, eA}
+ItemAtoms == CASE Tiny           -> {i1, sa, eA, mc2}
                [] Tier = "quick" -> {i1, sa, bT, none, ob, eA, fn, oo, TypeObj("int")}
                [] OTHER          -> {i1, sa, bT, none, ob, eA, fn, oo, TypeObj("int"), f1}
 KeyAtoms  == {i1, sa, none}
@@ -73,6 +76,18 @@ DEq == { Cont(c, s) : c \in EqCls, s \in SeqsUpTo(EqAtoms, LL) }
        \cup { Cont(c, <<Cont("tuple", <<a, b>>)>>) : c \in {"dict_items"}, a \in EqAtoms, b \in EqAtoms }
        \cup { Map("dict", <<KV(sa, Cont("list", s))>>) : s \in SeqsUpTo(EqAtoms, 2) }
        \cup { Cont("tuple", s) : s \in SeqsUpTo(EqAtoms, 2) }                                       \* root tuples (fixed)
+
+\* objects whose CLASS OBJECT answers len() / iter() / in through its metaclass chain (leaf metaclass or a parent
+\* metaclass), at the root (AllAtoms) and as items / mapping keys and values / nested items of every container kind
+MetaAtoms == {eA, eB, mc1, mc2}
+DMeta == { Cont(c, s) : c \in {"list", "tuple", "deque", "set", "frozenset", "USeq", "UColl", "dict_values", "dict_keys"},
+                        s \in { t \in SeqsUpTo(MetaAtoms \cup {i1}, 2) : Distinct(t) /\ Len(t) > 0 } }
+         \cup { Map(c, <<KV(k, v)>>) : c \in {"dict", "OrderedDict", "UMap", "UMapNe", "Counter", "ChainMap"},
+                                       k \in {sa, eB, mc2}, v \in MetaAtoms }
+         \cup { Map("dict", <<KV(sa, a), KV(i1, b)>>) : a \in {eB, mc2, i1}, b \in {eB, mc2} }
+         \cup { Cont("dict_items", <<Cont("tuple", <<sa, v>>)>>) : v \in MetaAtoms }
+         \cup { Cont("list", <<Cont(c, <<v>>)>>) : c \in {"list", "tuple", "USeq"}, v \in {eB, mc2} }
+         \cup { Map("dict", <<KV(sa, Cont("list", <<v, i1>>))>>) : v \in {eB, mc2} }
 
 \* depth 2: containers of small containers, of X-class objects and of back-references
 Inner == { Cont(c, s) : c \in {"list", "tuple"}, s \in SeqsUpTo(SmallAtoms, 2) }
@@ -111,7 +126,7 @@ D3 == IF Tiny THEN {}
            \cup { x \in { Map("dict", <<KV(sa, v)>>) : v \in Mid3 } : WellFormed(x, <<>>) }
 
 Objs == AllAtoms \cup TypeObjs \cup D1Seq \cup D1Set \cup D1Range \cup D1Iter \cup D1Map \cup D1Items
-        \cup D2Seq \cup D2Set \cup D2Map \cup D3 \cup DEq
+        \cup D2Seq \cup D2Set \cup D2Map \cup D3 \cup DEq \cup DMeta
 OSeq == TLCEval(SetToSeq(Objs))
 NObj == TLCEval(Len(OSeq))
 
@@ -164,7 +179,7 @@ HasCounterNonInt(x) == (x.k = "map" /\ x.cls = "Counter" /\ \E i \in DOMAIN x.it
 CauseSet(x) ==
      (IF HasClsIn(x, {"dict_items", "odict_items", "USetNe"}, FALSE) THEN {"set_node"} ELSE {})
 \cup (IF HasClsIn(x, {"odict_keys", "odict_values"}, TRUE) THEN {"unsubscriptable"} ELSE {})
-\cup (IF HasClsIn(x, {"E"}, FALSE) THEN {"meta_dunder"} ELSE {})
+\cup (IF HasClsIn(x, {"E", "E2", "MC1", "MC2"}, FALSE) THEN {"meta_dunder"} ELSE {})
 \cup (IF HasBack(x) THEN {"marker"} ELSE {})
 \cup (IF HasClsIn(x, {"DSeq", "DMap"}, FALSE) THEN {"duck"} ELSE {})
 \cup (IF HasCounterNonInt(x) THEN {"counter_val"} ELSE {})
@@ -185,7 +200,8 @@ Facts(j) ==
       markO1 |-> \E r \in 1..Lcm : HasMarker(o1[r]),
       hom   |-> on.k = "exc" \/ HasNode(on, "union") \/ \A r \in 1..Lcm : o1[r] = on,
       cons  |-> Conservative(x, hs),
-      causes |-> CauseSet(x), depth |-> ODepth(x)]
+      causes |-> CauseSet(x) \cap Legacy,          \* only root causes that are switched on explain a failure
+      depth |-> ODepth(x)]
 
 (* ----------------------------------------------------------- state machine *)
 CH == 40
@@ -265,7 +281,7 @@ AllCls == AllClsX
 EmitMeta == (ph = 0 /\ Emit) =>
               JsonSerialize(IOEnv.ROW_DIR \o "/meta.json",
                  [t |-> "meta", lcm |-> Lcm, nobj |-> NObj, legacy |-> Legacy,
-                  methods |-> [c \in AbcPathCls |-> [inst |-> InstMethods(c), meta |-> MetaMethods(c)]],
+                  methods |-> [c \in AbcPathCls |-> [inst |-> InstMethods(c), meta |-> MetaOwn(c), metainh |-> MetaInh(c)]],
                   abcs |-> [c \in AllCls |-> AbcsX(c)],
                   parents |-> [c \in AllCls |-> ParentX(c)],
                   fsm |-> [n \in FsmNodes |-> [fac |-> Factory(n), edges |-> Edges(n)]],
